@@ -122,7 +122,16 @@ def gen_random_pair(rng: Rng, max_ops: int) -> dict:
             ops.append({"op": "appinstall", "node": node, "app": "web-browser"})
         else:
             ops.append(other_request(rng, node, cls[node], uniq))
-    return pair_case(durs[0], durs[1], durs[2], durs[3], ops, cls)
+    case = pair_case(durs[0], durs[1], durs[2], durs[3], ops, cls)
+    if rng.chance(1, 3):  # declared initial state other than ON
+        spec = case["nodes"][rng.below(2)]
+        spec["init"] = rng.choice(["OFF", "OFF", "BOOTING", "SHUTTING_DOWN"])
+        if spec["init"] == "BOOTING":
+            spec["up_cd"] = rng.choice([0, 1, 2])
+        if spec["init"] == "SHUTTING_DOWN":
+            spec["down_cd"] = rng.choice([0, 1, 2])
+            spec["resetting"] = rng.chance(1, 2)
+    return case
 
 
 def gen_random_scenario(rng: Rng, max_ops: int) -> dict:
@@ -235,6 +244,11 @@ def build(case: dict):
         if c in ("computer", "server", "printer"):
             k = {"computer": Computer, "server": Server, "printer": Printer}[c]
             cfg = {"type": c, "ip_address": spec.get("ip", host_ips[c]), "subnet_mask": "255.255.255.0", **d}
+            if spec.get("init"):  # a node that the scenario file declares not ON, possibly in mid-transition
+                cfg["operating_state"] = spec["init"]
+                cfg["start_up_countdown"] = spec.get("up_cd", 0)
+                cfg["shut_down_countdown"] = spec.get("down_cd", 0)
+                cfg["is_resetting"] = bool(spec.get("resetting", False))
             if case["kind"] == "scenario":
                 cfg["default_gateway"] = "192.168.1.1"
             n = k.from_config(cfg)
